@@ -248,12 +248,12 @@ func c10Signal(d *vCtx) error {
 				return "fail"
 			}
 			tr.Emit(map[string]any{"e": "ret", "run": rid, "role": "C", "res": res(cok), "hung": cend.IsZero(), "ms": 0,
-				"since": since(cend), "told": false, "msg": ""}, nil)
+				"since": since(cend), "told": false, "msg": "", "claims": 2}, nil)
 			tr.Emit(map[string]any{"e": "ret", "run": rid, "role": "V", "res": res(cmd.ProcessState != nil && cmd.ProcessState.ExitCode() == 0 && allSame), "hung": hung,
-				"ms": 0, "since": since(vend), "told": false, "msg": ""}, nil)
+				"ms": 0, "since": since(vend), "told": false, "msg": "", "claims": 2}, nil)
 			tr.Emit(map[string]any{"e": "fs", "run": rid, "n": len(entries), "nsame": nsame, "allsame": allSame && len(entries) > 0,
 				"extra": 0, "touched": 0, "shown": true, "nshown": 2, "ntops": 2, "npresent": 0, "keptok": keptok || sigAt.IsZero(),
-				"verified": 1, "mutapplied": false, "vmgrow": 0, "pdata": 0, "pkeep": 0, "dataafter": 0, "pausems": 0}, nil)
+				"verified": 1, "claimsame": allSame && len(entries) > 0, "mutapplied": false, "vmgrow": 0, "pdata": 0, "pkeep": 0, "dataafter": 0, "pausems": 0}, nil)
 			details = append(details, map[string]any{"case": map[string]any{"id": rid, "opts": map[string]any{"upload": upload},
 				"plan": map[string]any{"stop": map[string]any{"role": "V", "delete": false, "signal": sig.String(), "after_bytes": threshold}}, "process": true},
 				"entries": entries, "server_exit": cmd.ProcessState.String(), "terminal": e2eFirstLine(sink.String())})
